@@ -279,6 +279,14 @@ def run_case(case, ctx):
             judge("torch." + fn, lambda: f(op), lambda: _canon(fn, torch.linalg.eigh(dense)), lambda: meth())
         else:
             judge("torch." + fn, lambda: f(op), lambda: _canon(fn, f(dense)), lambda: meth())
+            if fn in ("exp", "log", "sqrt", "abs"):
+                # entrywise functions also judged on the diagonal alone: diagonal-type operators apply them to the diagonal only
+                # (a recorded finding about the off-diagonal zeros), but what they return there has to be f of the diagonal
+                def _dg(x):
+                    x = x.to_dense() if hasattr(x, "to_dense") and not torch.is_tensor(x) else x
+                    return x.diagonal(dim1=-2, dim2=-1)
+
+                judge("torch." + fn + ".diagonal", lambda: _dg(f(op)), lambda: _dg(f(dense)), lambda: _dg(meth()))
     elif fn == "linalg_cholesky":
         up = rng.random() < 0.5
         up_ = up
